@@ -34,8 +34,8 @@ ASSUMPTIONS = ["HiGHS is truthful about kOptimal/kInfeasible", "HiGHS with one t
 
 KINDS = list(W.ALL_FAULT_KINDS)
 SEARCH_CLASSES = ["MinFlowDecomp", "MinFlowDecompCycles", "MinPathCover", "MinPathCoverCycles", "MinGenSet",
-                  "NumPathsOptimization", "MinErrorFlow", "kmodel"]
-WEIGHTS = [30, 14, 10, 8, 14, 10, 8, 6]
+                  "NumPathsOptimization", "MinErrorFlow", "kmodel", "MinSetCover"]
+WEIGHTS = [30, 14, 10, 8, 14, 10, 8, 6, 6]
 
 
 # --------------------------------------------------------------------------
@@ -130,6 +130,15 @@ def gen_world(seed, tier):
         if "time_limit" in so:
             args["time_limit"] = so["time_limit"]
         w = {"class": "NumPathsOptimization", "graph": g, "args": args}
+    elif kind == "MinSetCover":
+        uni = list(range(rng.randint(2, 6)))
+        subs = [[u for u in uni if rng.random() < 0.5] or [uni[0]] for _ in range(rng.randint(2, 5))]
+        if rng.random() < 0.85:
+            subs.append([u for u in uni if not any(u in s_ for s_ in subs)] or [uni[-1]])      # coverable
+        args = {"universe": uni, "subsets": subs, "solver_options": so}
+        if rng.random() < 0.6:
+            args["subset_weights"] = [rng.choice([1, 2, 3, 5]) for _ in subs]
+        w = {"class": "MinSetCover", "graph": None, "args": args}
     elif kind == "MinErrorFlow":
         g0 = gen.dag_layered(rng, max_nodes=5, max_edges=7) if rng.random() < 0.6 else gen.digraph_cyclic(rng, max_nodes=4, max_edges=5)
         g = gen.perturb(rng, g0)
